@@ -44,11 +44,11 @@ def gen_server_cases(ctx, thorough):
                 return str(r.choice([0, 1]))
             if kind == 'register':
                 return str(r.choice([0, 1, 4660, 65535]))
-            n = r.choice([1, 2, 8, 9, 17])
+            n = r.choice([1, 2, 7, 8, 9, 17, 123] + ([125, 1968] if kind == 'coils' else []))
             return ','.join(str(r.choice([0, 1]) if kind == 'coils' else r.choice([0, 1, 65535, r.randrange(65536)])) for _ in range(n))
 
         def start():
-            return r.choice([0, 1, 7, 1000, 65535 - 20])
+            return r.choice([0, 1, 7, 1000, 60000])
         cases.append(f'{kind} set 1 Unknown 0 {start()} {vals()}')
         cases.append(f'{kind} set 1 ServerDeviceBusy 6 {start()} {vals()}')      # success wins over the exception fields
         for name in STD_CODE:
@@ -162,17 +162,17 @@ def gen_client_cases(ctx, thorough):
             cases.append(f'req {op} {start} {2 if op in ("wmc", "wmr", "rc", "rd", "rh", "ri") else 1}')
         # correct replies, boundary counts / values
         if op in ('rc', 'rd'):
-            counts = [1, 8, 9, 2000]
+            counts = [1, 7, 8, 9, 125, 2000]
         elif op in ('rh', 'ri'):
-            counts = [1, 2, 125]
+            counts = [1, 2, 7, 8, 9, 125]
         elif op == 'wc':
             counts = [0, 1]
         elif op == 'wr':
             counts = [0, 65535]
         elif op == 'wmc':
-            counts = [1, 9, 1968]
+            counts = [1, 7, 8, 9, 125, 1968]
         else:
-            counts = [1, 123]
+            counts = [1, 7, 8, 9, 123]
         for n in counts:
             cases.append(f'req {op} {r.choice([2000, 2001, 40000])} {n}')
         cases.append(f'noconn {op} 2000 1')
@@ -211,6 +211,106 @@ def coq_error_of_rust(rust):
     return 'RRE_' + rust
 
 
+
+def unit_of(start, n):
+    return (start + 7 * n) % 247 + 1
+
+
+def call_values(op, n):
+    if op == 'wmc':
+        return [i % 2 == 0 for i in range(n)]
+    return [(i * 257) & 0xFFFF for i in range(n)]
+
+
+def coq_c_call(op, start, n):
+    if op in READS:
+        return '(' + {'rc': 'CcReadCoils', 'rd': 'CcReadDiscreteInputs', 'rh': 'CcReadHoldingRegisters', 'ri': 'CcReadInputRegisters'}[op] + f' {start} {n})'
+    if op == 'wc':
+        return f'(CcWriteSingleCoil {start} {vlib.coq_bool(n != 0)})'
+    if op == 'wr':
+        return f'(CcWriteSingleRegister {start} {n})'
+    if op == 'wmc':
+        return f'(CcWriteMultipleCoils {start} (Some [' + ';'.join(vlib.coq_bool(b) for b in call_values(op, n)) + ']))'
+    return f'(CcWriteMultipleRegisters {start} (Some ' + vlib.coq_N_list(call_values(op, n)) + '))'
+
+
+def request_pdu(op, start, n):
+    fc = {'rc': 1, 'rd': 2, 'rh': 3, 'ri': 4, 'wc': 5, 'wr': 6, 'wmc': 15, 'wmr': 16}[op]
+    hi = lambda v: [(v >> 8) & 0xFF, v & 0xFF]
+    if op in READS:
+        return [fc] + hi(start) + hi(n)
+    if op == 'wc':
+        return [fc] + hi(start) + ([0xFF, 0] if n else [0, 0])
+    if op == 'wr':
+        return [fc] + hi(start) + hi(n)
+    if op == 'wmc':
+        bits = call_values(op, n)
+        data = [sum((1 << k) for k in range(8) if 8 * j + k < n and bits[8 * j + k]) for j in range((n + 7) // 8)]
+        return [fc] + hi(start) + hi(n) + [len(data)] + data
+    regs = call_values(op, n)
+    return [fc] + hi(start) + hi(n) + [(2 * n) & 0xFF] + [b for v in regs for b in hi(v)]
+
+
+def peer_reply(op, start, n):
+    """the reply PDU of the scripted peer of harness ffi_client.rs (mirror of peer_conn)"""
+    pdu = request_pdu(op, start, n)
+    fc, qty, unit = pdu[0], (pdu[3] << 8) | pdu[4], unit_of(start, n)
+    if start < 256:
+        return [fc | 0x80, start]
+    if start == 1004:
+        return [fc ^ 0x10, 0, 0, 0, 0]
+    if fc in (1, 2):
+        nb = (qty + 7) // 8
+        data = [0] * nb
+        for k in range(qty):
+            if (start + k + unit) % 3 == 0:
+                data[k // 8] |= 1 << (k % 8)
+        r = [fc, nb & 0xFF] + data
+    elif fc in (3, 4):
+        r = [fc, (qty * 2) & 0xFF] + [b for k in range(qty) for b in (((((start + k) & 0xFFFF) * 3 & 0xFFFF) + unit) & 0xFFFF).to_bytes(2, 'big')]
+    else:
+        r = pdu[:5]
+    if start == 1001:
+        if fc <= 4:
+            r = r[:-1]
+        else:
+            r[2] = (r[2] + 1) & 0xFF
+    return r
+
+
+def rust_to_event(rust):
+    if rust.startswith('OK'):
+        return 'complete' + rust[2:]
+    return ffi_name_of_rust(rust)
+
+
+COMPOSED_PRE = '''Local Open Scope string_scope.
+Definition show_cv (v : option c_value) : string :=
+  match v with
+  | None => "PANIC"
+  | Some (CvBits l) => "complete:" ++ show_list (fun p : N * bool => show_N (fst p) ++ "=" ++ show_bool (snd p)) "," l
+  | Some (CvRegisters l) => "complete:" ++ show_list (fun p : N * N => show_N (fst p) ++ "=" ++ show_N (snd p)) "," l
+  | Some CvNothing => "complete"
+  | Some (CvFailure e) => "failure:" ++ name_ffi_request_error e
+  end.
+Definition show_ev (e : cb_event) : string :=
+  match e with OnComplete => "complete" | OnFailure x => "failure:" ++ name_ffi_request_error x | ShapeUnknown => "SHAPE?" end.
+Definition show_call (x : ffi_param_error * list cb_event) : string :=
+  name_ffi_param_error (fst x) ++ "/" ++ match snd x with [] => "none" | l => show_list show_ev "+" l end.
+Definition run_req (x : c_call * N * N * list N) : string :=
+  let '(cc, tx, uid, pdu) := x in
+  match to_call cc with
+  | None => "NOCALL|-|-|-"
+  | Some c =>
+      match build c with
+      | Ok r =>
+          let d := deliver_via ViaFfi r pdu in
+          show_list show_bytes "+" (path_wire ViaFfi Tcp tx uid c) ++ "|" ++ show_bytes (ref_encode_tcp tx uid c) ++ "|" ++ show_cv (c_deliver d) ++ "|" ++
+          show_call (c_function false cc Accepted [TComplete (match d with Ok _ => ROk | Err e => RErr (class_of_codec e) | Panic => ROk end)])
+      | _ => "REJECTED|-|-|" ++ show_call (c_function false cc Accepted [])
+      end
+  end.'''
+
 CLIENT_PRE = '''Local Open Scope string_scope.
 Definition show_ev (e : cb_event) : string :=
   match e with OnComplete => "complete" | OnFailure x => "failure:" ++ name_ffi_request_error x | ShapeUnknown => "SHAPE?" end.
@@ -236,6 +336,7 @@ def check_client(ctx, cases):
     n_calls = 0
     classes = {}
     model_cases, model_expect = [], []      # (coq term, impl string to compare, case)
+    composed = []                           # req scenarios with the wire bytes, for the composed client model
 
     def fail(key, what, c, i, nfi=False, **kw):
         nonlocal bad
@@ -250,11 +351,13 @@ def check_client(ctx, cases):
         sc, op, start, n = p[0], p[1], int(p[2]), int(p[3])
         extra = p[4] if len(p) > 4 else ''
         rq = OPS[op]
-        m = re.fullmatch(r'ffi:(.*) rust:(.*)', i)
+        m = re.fullmatch(r'ffi:(.*?) rust:(.*?)(?: wire:(\S+)/(\S+))?', i)
         if not m:
             fail('harness', f'{c}: {i}', c, i, nfi=True)
             continue
         ffi, rust = m.group(1), m.group(2)
+        if sc == 'req' and m.group(3):
+            composed.append((c, op, start, n, ffi, rust, m.group(3), m.group(4), i))
         if sc == 'req':
             n_calls += 1
             rc, ev = ffi.split('/', 1)
@@ -350,6 +453,35 @@ def check_client(ctx, cases):
     for mo, (want, c, i) in zip(model, model_expect):
         if mo is not None and mo != want:
             fail('completion-model-differs-from-impl', f'{c}: model {mo}, implementation {want}', c, i, nfi=True, model=mo)
+    # the composed client model (Model/FfiClient.v over p1's codec model): wire bytes and the value the callback receives
+    comp_terms = []
+    for (c, op, start, n, ffi, rust, wf, wr, i) in composed:
+        comp_terms.append(f'({coq_c_call(op, start, n)}, 0, {unit_of(start, n)}, {vlib.coq_N_list(peer_reply(op, start, n))})')
+    comp = model_eval(ctx, ['Base.Show', 'Base.Outcome', 'Base.ClientTypes', 'Gen.FfiTables', 'Model.Ffi', 'Model.ClientRequest', 'Model.ClientPaths',
+                            'Model.Format', 'Spec.ClientCodecSpec', 'Model.FfiClient'], 'run_req', comp_terms, case_type='c_call * N * N * list N',
+                      preamble=COMPOSED_PRE, per_shard=120)
+    n_comp = 0
+    for (c, op, start, n, ffi, rust, wf, wr, i), mo in zip(composed, comp):
+        if start in (1000, 1002, 1003):
+            # no reply PDU reaches the codec: only the request bytes are compared
+            mo_wire = mo.split('|')[0] if mo else None
+            if wf != wr or (mo_wire is not None and wf != mo_wire):
+                fail('request-bytes-differ.' + OPS[op], f'{c}: C-ABI client sent {wf}, Rust API client {wr}, protocol encoding {mo_wire}', c, i, spec=mo_wire or wr)
+            continue
+        n_comp += 1
+        if wf != wr:
+            fail('request-bytes-differ.' + OPS[op], f'{c}: the C-ABI client sent {wf}, the Rust API client {wr} for the same call', c, i, spec=wr)
+            continue
+        if mo is None:
+            continue
+        m_wire, s_wire, m_value, m_call = mo.split('|')
+        if wf != s_wire:
+            fail('request-bytes-not-the-protocol-encoding.' + OPS[op], f'{c}: on the wire {wf}, ref_encode_tcp gives {s_wire}', c, i, spec=s_wire)
+        elif ffi.split('/', 1)[1] != m_value or rust_to_event(rust) != m_value:
+            fail('callback-value-differs.' + OPS[op], f'{c}: the C callback received {ffi.split("/", 1)[1][:120]}, the Rust API {rust[:120]}, the composed model {m_value[:120]}', c, i, spec=m_value, nfi=(rust_to_event(rust) != m_value))
+        elif m_wire != s_wire or m_call != 'Ok/' + strip_values(m_value):
+            fail('composed-client-model-inconsistent', f'{c}: model wire {m_wire} spec {s_wire}; call {m_call} value {m_value[:80]}', c, i, nfi=True)
+    classes['composed-model-requests'] = n_comp
     ctx.oblige('correspondence:c-abi-client-vs-rust-api-client', bad == 0, f'{bad} disagreements on {len(cases)} scenarios')
     return classes, n_calls, list(zip(cases, impl))
 
